@@ -23,6 +23,7 @@ CONSTANTS
   NameOrder <- NameOrderA
   BuildCfgs <- BuildCfgsA
   IntegrCfgs <- IntegrCfgsNone
+  OdeCfgs <- IntegrCfgsNone
   UnitCfgs <- UnitsNone
   Times <- TimesA
   Tol <- TolA
